@@ -9,7 +9,7 @@ PAIRS = [("PEG", "pUSD"), ("PEG", "pXBT"), ("pUSD", "pXBT"), ("pXBT", "pUSD"), (
 ASSETS = ["PEG", "pUSD", "pXBT", "pEUR", "pFCT", "pDCR"]
 
 
-def chain(name, seed, L, pip10_at, P, scale):
+def chain(name, seed, L, pip10_at, P, scale, probes=True):
     rnd = random.Random(seed)
     s = scen.Scn(name, sched=dict(scen.LIVE, PIP10=pip10_at), seed=seed, avg=P, assets=ASSETS)
     users = [s.key("A%d" % i) for i in range(1, 7)]
@@ -23,6 +23,7 @@ def chain(name, seed, L, pip10_at, P, scale):
         for k in ("PEG", "pXBT", "pEUR"):
             r[k] = max(1, r[k] + (i * 7919 % 11 - 5) * max(1, r[k] // 50))
         return r
+    r0 = rates(0)
     # seed every user with pUSD / pXBT / pEUR at the first two rated blocks
     for u in users:
         b = 1200 * 10**8
@@ -33,7 +34,14 @@ def chain(name, seed, L, pip10_at, P, scale):
         rated = rnd.random() < 0.72 or i == 0
         if rated:
             s.grade(h, rates=rates(i + 2))
-        for u in users:
+        # probes in both pricing directions from two dedicated, well-funded users at every height: with PIP-10 the average binds the
+        # destination (max) when prices fall and the source (min) when they rise, so a wrong averaging window always shows in some yield
+        if probes:
+            usd = max(1, 300 * 10**8 * r0["PEG"] // r0["pUSD"] // 100)       # about 1/100 of what the preamble conversions yielded
+            eur = max(1, 150 * 10**8 * r0["PEG"] // r0["pEUR"] // 100)
+            s.entry(h, users[-1], [{"t": "pUSD", "amt": usd + i, "conv": "pEUR"}, {"t": "pUSD", "amt": usd + 2 * i, "conv": "pXBT"}])
+            s.entry(h, users[-2], [{"t": "pEUR", "amt": eur + i, "conv": "pUSD"}, {"t": "PEG", "amt": 10**8 + i, "conv": "pUSD"}])
+        for u in (users[:-2] if probes else users):
             if rnd.random() < 0.6:
                 src, dst = rnd.choice(PAIRS)
                 amt = rnd.choice([1, 2, 3, 99999999, 10**8, 10**8 + 1, rnd.randint(1, 10**11), rnd.randint(1, 10**6)])
@@ -51,7 +59,7 @@ def family(seed, tier):
     n = 5 if tier == "quick" else 24
     for k in range(n):
         L = rnd.randint(8, 12)
-        s = chain("c07-%d" % k, seed * 1000 + k, L, pip10_at=rnd.choice([10**6, 9, 9 + L // 2, 11]), P=rnd.choice([4, 4, 6, 8]),
+        s = chain("c07-%d" % k, seed * 1000 + k, L, pip10_at=[9, 9 + L // 2, 10**6, 11, 9][k % 5] if k < 5 else rnd.choice([10**6, 9, 9 + L // 2, 11]), P=rnd.choice([4, 4, 6, 8]),
                   scale="small" if k % 5 == 4 else "wide")
         docs.append((s.s["name"], s.doc()))
     for k in range(1 if tier == "quick" else 3):
